@@ -84,10 +84,12 @@ def generate(tier, rng):
     from .. import leanside
     from ..spec import unhx
     extra = []
-    for idents in (['V1', 'V_1', 'V12'], ['Http2', 'Http_2', 'Http22'], ['A1b2', 'A_1b2', 'A1_b2'], ['Utf8', 'Utf16', 'Utf_8'], ['Rgb8To16', 'Rgb8to16', 'Rgb_8To16']):
+    for idents in (['V1', 'V_1', 'V12'], ['Http2', 'Http_2', 'Http22'], ['A1b2', 'A_1b2', 'A1_b2'], ['Utf8', 'Utf16', 'Utf_8'], ['Rgb8To16', 'Rgb8to16', 'Rgb_8To16'],
+                   ['Utf8', '!UTF8', 'Plain'], ['!Ab', 'AB', 'Cd'], ['V1', 'Mid', '!V_1']):
         e = ESpec(id='c10_%d' % k, name='EnC10x%d' % k, derives=['EnumTable'], feats=['table'])
         e.extra['base_derives'] = ('Debug', 'PartialEq', 'Clone', 'Copy')
-        e.variants = [VSpec(ident=i) for i in idents]
+        # `!X`: a DISABLED variant whose snake name equals an enabled one's (legal: only enabled variants own a field)
+        e.variants = [VSpec(ident=i.lstrip('!'), dis=i.startswith('!')) for i in idents]
         e.extra['shape'] = 'near-colliding-snake-names'
         k += 1
         extra.append(e)
@@ -100,7 +102,11 @@ def generate(tier, rng):
             continue  # the model says two snake names coincide: rustc rejects the struct (duplicate field); not a domain enum
         e.extra['table_fields'] = [unhx(t).decode() for t in o.split(' ') if t.startswith('x')]
         c.add(e)
-        keys = [hx(v.ident) for v in e.variants]
+        keys = [hx(v.ident) for v in e.variants if not v.dis]
+        for v in e.variants:
+            if v.dis:
+                c.op(e.id, 'table new get:%s' % hx(v.ident), 'disabled-index')
+                c.op(e.id, 'table new set:%s:1' % hx(v.ident), 'disabled-index-mut')
         c.op(e.id, 'tablefields', 'field-names')
         c.op(e.id, 'table closure dump %s' % ' '.join('get:%s' % x for x in keys), 'constructor')
         c.op(e.id, 'table new %s dump' % ' '.join('set:%s:%d' % (x, i + 1) for i, x in enumerate(keys)), 'exhaustive-writes-3')
